@@ -1630,11 +1630,13 @@ void MDSDRV_Linker::add_song(RIFF& mds, const std::string& filename)
 				throw InputError(nullptr, ".MDS data is malformed (PCM header without a pointer slot)");
 			Wave_Bank::Sample header;
 			header.from_bytes(std::vector<uint8_t>(data.begin()+4, data.end()));
-			if((uint64_t)header.position + header.size > pcmd.size())
+			// The sample is the playback window [position + start, position + start + size)
+			if((uint64_t)header.position + header.start + header.size > pcmd.size())
 				throw InputError(nullptr, ".MDS data is malformed (PCM header points outside the PCM data)");
-			auto begin = pcmd.begin() + header.position;
-			auto end = pcmd.begin() + header.position + header.size;
+			auto begin = pcmd.begin() + header.position + header.start;
+			auto end = begin + header.size;
 			header.position = 0;
+			header.start = 0;
 			uint16_t offset = wave_rom.add_sample(header, std::vector<uint8_t>(begin, end));
 
 			// Get new PCM header
